@@ -157,43 +157,58 @@ def run(c):
 
     bad = [k for k in range(len(cases)) if verdicts[k + 1]["viol"]]
     c.extra["rejected_cases"] = len(bad)
-    # rejected cases are grouped by structural signature; one member of each group is re-executed exactly (same
-    # scenario, same host fault plan, same kill point or no kill).  Undisturbed members go first (nothing in them depends
-    # on where a kill lands); a kill point can land a few calls away from where it landed before (timer wake-ups), so a
-    # member whose re-execution is accepted is followed by the next member.  A group none of whose members reproduces
-    # is not believed (exit 2).
-    groups = {}
+    # A rejected case is re-executed exactly: same scenario, same host fault plan, same kill point or no kill.  Per
+    # (scenario, clause) the undisturbed members go first (nothing in them depends on where a kill lands).  A kill point
+    # is (system call, ordinal); timer wake-ups add or drop eventfd writes, so the re-execution tries the neighbouring
+    # ordinals until the process dies before the same kind of call as the first time.  Only a clause that fails again
+    # is reported; if nothing at all reproduces the rejections are not believed (exit 2).
+    pairs = {}
     for k in bad:
-        rows, s = cases[k]
-        sig = {"broken": sorted(verdicts[k + 1]["viol"]), "scenario": s["scenario"]}
-        groups.setdefault(json.dumps(sig, sort_keys=True), (sig, []))[1].append(k)
-    for key, (sig, members) in sorted(groups.items()):
+        for cl in verdicts[k + 1]["viol"]:
+            pairs.setdefault((cases[k][1]["scenario"], cl), []).append(k)
+
+    def reexecute(s):
+        sw = kk.Sweeper("c08_re_%d" % os.getpid(), bindir, all_syscalls=thorough)
+        try:
+            if not s["point"]:
+                return sw.case(1, s["scenario"], s["plan"], None)
+            last = None
+            for d in (0, -1, 1, -2, 2, -3, 3, -4, 4, -5, 5, -6, 6, -8, 8):
+                if s["point"][1] + d < 1:
+                    continue
+                last = sw.case(1, s["scenario"], s["plan"], (s["point"][0], s["point"][1] + d))
+                if last[1]["killed_before"] == s["killed_before"] and last[1]["host_requests_first"] == s["host_requests_first"]:
+                    return last
+            return last
+        finally:
+            sw.close(keep=bool(os.environ.get("VERIF_KEEP")))
+
+    confirmed, tried = {}, 0
+    for (scn, cl), members in sorted(pairs.items()):
         members.sort(key=lambda k: (cases[k][1]["killed"], k))
-        confirmed, tried = None, []
-        for k in members[:6]:
-            rows, s = cases[k]
-            sw = kk.Sweeper("c08_re_%d" % os.getpid(), bindir, all_syscalls=thorough)
-            try:
-                again = sw.case(1, s["scenario"], s["plan"], tuple(s["point"][:2]) if s["point"] else None)
-            finally:
-                sw.close(keep=bool(os.environ.get("VERIF_KEEP")))
-            v2 = decide(c, [again], "c08_replay_%d_%d" % (os.getpid(), k))[1]
-            tried.append({"plan": s["plan"], "point": s["point"], "second": sorted(v2["viol"])})
-            if set(sig["broken"]) <= set(v2["viol"]):
-                confirmed = (k, again)
+        for k in members[:5]:
+            if (scn, cl) in confirmed:
                 break
-        if confirmed is None:
-            c.extra.setdefault("unreproduced", []).append({"signature": sig, "members": len(members), "tried": tried})
-            raise util.ToolError("rejected cases (%s, %d of them) did not reproduce when re-executed (%d tried); not believed" % (
-                key, len(members), len(tried)))
-        k, again = confirmed
+            again = reexecute(cases[k][1])
+            tried += 1
+            v2 = decide(c, [again], "c08_replay_%d_%d" % (os.getpid(), k))[1]
+            for cl2 in v2["viol"]:
+                confirmed.setdefault((scn, cl2), (again, len(pairs.get((scn, cl2), []))))
+    lost = sorted(set(pairs) - set(confirmed))
+    if lost:
+        c.extra["unreproduced"] = [{"scenario": a, "clause": b, "cases": len(pairs[(a, b)])} for a, b in lost]
+    if bad and not confirmed:
+        raise util.ToolError("%d rejected case(s) (%s) did not reproduce when re-executed (%d re-executions); not believed" % (
+            len(bad), sorted(pairs), tried))
+    for (scn, cl), (again, n) in sorted(confirmed.items()):
         s = again[1]
-        what = ("C08 clause(s) %s broken in scenario %s, host fault plan %s, first process %s: key directory then %s (tmp %s), host "
-                "latch %s; restarted process: %s, %d new key request(s), host saw %s; %d case(s) with this signature" % (
-                    sig["broken"], s["scenario"], s["plan"], ("killed before '%s'" % s["killed_before"]) if s["killed"] else "not killed",
+        sig = {"broken": [cl], "scenario": scn}
+        what = ("C08 clause %s broken in scenario %s, host fault plan %s, first process %s: key directory then %s (tmp %s), host "
+                "latch %s; restarted process: %s, %d new key request(s), host saw %s; %d case(s) of the sweep broke this clause" % (
+                    cl, scn, s["plan"], ("killed before '%s'" % s["killed_before"]) if s["killed"] else "not killed",
                     json.dumps(s["final_after_kill"]), json.dumps(s["tmp_after_kill"]), s["latched_at_kill"], s["restart_result"],
-                    s["restart_acquires"], s["host_requests_restart"], len(members)))
-        c.violation(what, sig, {"scenario": s["scenario"], "plan": s["plan"], "point": s["point"], "rows": again[0], "summary": s})
+                    s["restart_acquires"], s["host_requests_restart"], n))
+        c.violation(what, sig, {"scenario": scn, "plan": s["plan"], "point": s["point"], "rows": again[0], "summary": s})
     fold(c, t, out)
     if not c.violations:
         kk.cleanup_traces("c08_")
